@@ -23,8 +23,10 @@ deviation bit):
   ("RQ", r, l, "-") ("RP", r, l, "-")   region.objects.request_objects / request_object_properties (at most 2 pending)
   ("TD", r, "-") ("RT", r, "-")         region.mark_dead() / open_circuit + track_region_objects + load_cache
   ("TICK", "-")            0.25 virtual seconds (fires the cache-miss debounce, which calls request_objects)
+  ("Kx", r, l, "defer") ("TDx", r, "defer")   KillObject / mark_dead while a request is pending, and the next event
+                           happens before the loop has run the done-callbacks of the futures just cancelled
 Deviation = reparent, relocal, move, return, late, kill of an unknown local, multi kill, terse for an unknown local,
-properties for an unknown/limbo object, cache hit that clobbers / duplicates.
+properties for an unknown/limbo object, cache hit that clobbers / duplicates, deferred done-callbacks.
 
 Preconditions applied by ``enabled()`` from the reference model (the property's own): a local ID held by a live object
 is never given to a different full ID; no parent cycle among live objects.  Symmetry: local IDs of a region are
@@ -54,8 +56,9 @@ finding is reported at its root):
   parent-link                  Parent is the tracked parent (live weak reference) / None when the parent is unknown
   orphan-held / orphans-exact  unknown parent => exactly once in _orphans[parent]; _orphans holds nothing else
   avatar-index-vs-model        all_avatars with an Object == live avatar objects (lookup by full ID through the avatar view)
-  missing-cleared-on-track / orphan-parent-missing    step postconditions on missing_locals (announced local is not
-                               missing any more; a parent that was looked for and not found is)
+  (missing_locals is internal bookkeeping the statement never mentions: "announced local still in missing_locals" and
+   "unknown parent not in missing_locals" are recorded as observations -- outcome signature + coverage.observations --
+   and are never violations; lead triage of former finding D6)
   future-cancelled-on-kill / future-done-on-untrack / future-done-on-region-clear / future-resolved-on-answer
 Sites name the handler of the event plus the scenario tag (or, for exceptions, the innermost library frame, exception
 type and scenario tag), so findings with different causes do not share a key.
@@ -95,14 +98,14 @@ AV = 2                      # index of the avatar full ID
 MSG_KIND = ("ObjectUpdate", "ObjectUpdateCompressed", "ObjectUpdate")
 MAX_PENDING = 2             # bound on simultaneously pending request futures (state-space bound, not a precondition)
 SETTINGS = {"USE_VIEWER_OBJECT_CACHE": True, "AUTOMATICALLY_REQUEST_MISSING_OBJECTS": True}
-DEV_TAGS = {"reparent", "relocal", "move", "return", "late", "unknown", "orphanholder", "multi", "limbo",
+DEV_TAGS = {"defer", "reparent", "relocal", "move", "return", "late", "unknown", "orphanholder", "multi", "limbo",
             "vohit-clobber", "vohit-dup"}
 
 PROFILES = {
     # sub-alphabets: "graph" = scene-graph events only (small auxiliary state, searched deep);
     # "full" = everything (requests, properties, terse/cached updates, debounce timer)
     "graph": {"A", "K", "KM", "TD", "RT"},
-    "full": {"A", "T", "C", "P", "PF", "K", "KM", "RQ", "RP", "TD", "RT", "TICK"},
+    "full": {"A", "T", "C", "P", "PF", "K", "KM", "RQ", "RP", "TD", "RT", "TICK", "Kx", "TDx"},
 }
 
 HANDLER = {
@@ -118,6 +121,8 @@ HANDLER = {
     "RQ": "ClientObjectManager.request_objects",
     "RP": "ClientObjectManager.request_object_properties",
     "TD": "BaseClientRegion.mark_dead",
+    "TDx": "BaseClientRegion.mark_dead",
+    "Kx": "ClientWorldObjectManager._handle_kill_object",
     "RT": "ClientWorldObjectManager.track_region_objects",
     "TICK": "ProxyObjectManager._request_missed_cached_objects",
 }
@@ -254,6 +259,7 @@ class World:
         self.lw.loop.set_exception_handler(lambda loop, ctx: self.loop_excs.append(ctx.get("exception")
                                                                                     or RuntimeError(ctx.get("message"))))
         self.violations: List[Dict[str, Any]] = []
+        self.notes: List[str] = []                 # observations of the last step (not violations)
 
 
 def _core(ev):
@@ -316,6 +322,8 @@ class Harness:
                     else:
                         ktag = "orphanholder" if m.children(r, l) else "unknown"
                     evs.append(("K", r, l, ktag))
+                    if pending:
+                        evs.append(("Kx", r, l, "defer"))
                     if l <= 2 and pending < MAX_PENDING:
                         evs.append(("RQ", r, l, "-"))
                         evs.append(("RP", r, l, "-"))
@@ -323,6 +331,8 @@ class Harness:
                     evs.append(("KM", r, 1, 2, "multi"))
                     evs.append(("KM", r, 2, 1, "multi"))
                 evs.append(("TD", r, "-"))
+                if pending:
+                    evs.append(("TDx", r, "defer"))
             else:
                 for f in range(NF):
                     if f not in m.objs and f not in m.limbo:
@@ -371,6 +381,7 @@ class Harness:
         lw, m = w.lw, w.ref
         lw.recorder.raised.clear()
         w.loop_excs.clear()
+        w.notes = []
         raised: List[Dict[str, str]] = []
         exp: Dict[str, Any] = {"must_done": []}
         hkey = kind
@@ -405,7 +416,7 @@ class Harness:
                 wh.deliver(lw, lw.regions[r], wh.wire(name, wh.FULLS[f]))
                 if o:
                     exp["answered"] = (o["r"], o["l"], int(ObjectUpdateType.PROPERTIES), f)
-            elif kind == "K":
+            elif kind in ("K", "Kx"):
                 _, r, l, _ = ev
                 wh.deliver(lw, lw.regions[r], wh.wire("KillObject", l))
                 exp = m.kill(r, (l,))
@@ -423,7 +434,7 @@ class Harness:
                     futs, t = objs.request_object_properties(l), ObjectUpdateType.PROPERTIES
                 for fut in futs:
                     w.futs.append({"r": r, "l": l, "t": int(t), "fut": fut})
-            elif kind == "TD":
+            elif kind in ("TD", "TDx"):
                 _, r, _ = ev
                 lw.regions[r].mark_dead()
                 m.teardown(r)
@@ -438,7 +449,10 @@ class Harness:
                 raise KeyError(kind)
         except Exception as e:  # an API call raised directly (message handlers never do: Event.notify swallows)
             raised.append({"site": wh.exception_site(e), "detail": f"{HANDLER[hkey]} raised {e!r}"})
-        lw.loop.run_ready()
+        if tag != "defer":
+            # "defer": the caller goes on (next event) before the loop gets to run the done-callbacks of the futures
+            # this event cancelled, e.g. an addon that re-requests from the code path that saw the region drop
+            lw.loop.run_ready()
         raised.extend(lw.recorder.raised)
         for e in w.loop_excs:
             raised.append({"site": wh.exception_site(e), "detail": f"loop callback raised {e!r}"})
@@ -467,7 +481,7 @@ class Harness:
             wh.wire("ObjectProperties", wh.FULLS[ev[1]])
         elif kind == "PF":
             wh.wire("ObjectPropertiesFamily", wh.FULLS[ev[1]])
-        elif kind == "K":
+        elif kind in ("K", "Kx"):
             wh.wire("KillObject", ev[2])
         elif kind == "KM":
             wh.wire("KillObject", ev[2], ev[3])
@@ -577,17 +591,17 @@ class Harness:
                     bad("avatar-index-vs-model", "ClientWorldObjectManager._rebuild_avatar_objects" + f"[{ev[0]}:{tag}]",
                         f"Avatar.Object / RegionHandle ({a.RegionHandle}) disagree with the tracked avatar object "
                         f"(model region {m.objs[AV]['r']})")
-        # -- step postconditions on missing_locals
+        # -- missing_locals: internal bookkeeping the property statement never mentions. Observed (part of the outcome
+        #    signature, demonstration in coverage.observations), never a violation.
+        w.notes = []
         if "tracked_now" in exp:
             r, l = exp["tracked_now"]
             if l in lw.regions[r].objects.state.missing_locals:
-                bad("missing-cleared-on-track", site,
-                    f"local {l} of region {r} was just announced but is still in missing_locals")
+                w.notes.append("announced-local-still-in-missing_locals")
         if "orphan_parent" in exp:
             r, p = exp["orphan_parent"]
             if p not in lw.regions[r].objects.state.missing_locals:
-                bad("orphan-parent-missing", site,
-                    f"an object was announced with unknown parent {p} in region {r} but {p} is not in missing_locals")
+                w.notes.append("unknown-parent-not-in-missing_locals")
         # -- request futures
         for r, l, clause in exp.get("must_done", ()):
             st = lw.regions[r].objects.state
@@ -609,7 +623,14 @@ class Harness:
                     f"{ObjectUpdateType(t).name} reply for local {l} of region {r} arrived, {len(left)} future(s) "
                     f"for it still pending")
             for x in prior_futs:
-                if (x["r"], x["l"], x["t"]) != (r, l, t) or not x["fut"].done() or x["fut"].cancelled():
+                if (x["r"], x["l"], x["t"]) != (r, l, t) or x["fut"].cancelled():
+                    continue
+                if not x["fut"].done():
+                    if not left:    # the manager no longer knows the future at all
+                        bad("future-resolved-on-answer", rsite,
+                            f"{ObjectUpdateType(t).name} reply for local {l} of region {r} arrived, a future handed out "
+                            f"for it is still pending and no longer registered (_object_futures keys="
+                            f"{[(k[0], int(k[1])) for k in st._object_futures]})")
                     continue
                 res = x["fut"].result()
                 if res is None or res.FullID != wh.FULLS[f] or res.LocalID != l:
@@ -686,6 +707,7 @@ class Harness:
         parts.append(tuple(sorted((str(k), a.RegionHandle, a.Object is not None) for k, a in so._avatars.items())))
         parts.append(tuple(sorted((x["r"], x["l"], x["t"]) for x in w.futs if not x["fut"].done())))
         parts.append(lw.loop.pending_timers())
+        parts.append(len(lw.loop._ready))
         return tuple(parts)
 
     def nontrivial(self, w: World, hist):
@@ -700,7 +722,7 @@ class Harness:
         return (m.canon()[:3], tuple(tuple(sorted((k, tuple(v)) for k, v in reg.objects.state._orphans.items()))
                                      for reg in w.lw.regions),
                 tuple(tuple(sorted(reg.objects.state.missing_locals)) for reg in w.lw.regions),
-                tuple(sorted((x["r"], x["l"], x["t"]) for x in w.futs)), bool(w.violations))
+                tuple(sorted((x["r"], x["l"], x["t"]) for x in w.futs)), bool(w.violations), tuple(w.notes))
 
 
 _SIG_FIELDS = tuple(k for k in Object.__fields__ if k not in ('Parent', 'Children'))
@@ -775,6 +797,18 @@ def _minimise(h: Harness, history, clause: str, site: str):
     return out
 
 
+def _observations():
+    """Demonstrations of the missing_locals observations (not violations), re-evaluated on the tree under test."""
+    out = []
+    for name, cores in (
+            ("announced-local-still-in-missing_locals",
+             [("C", 0, 1, 2), ("C", 0, 1, 1), ("A", 0, 1, 1, 0)]),):    # cache hit, stale-CRC miss, full update
+        w, last = _retagged_replay(Harness(1, "full"), cores)
+        out.append({"observation": name, "history": [list(c) for c in cores],
+                    "seen_on_this_tree": bool(w is not None and name in w.notes)})
+    return out
+
+
 BOUNDS = {
     # tier: [(profile, regions, locals per region, depth, deviation bound)]
     "quick": [("graph", 1, 3, 5, 2), ("graph", 2, 2, 4, 2), ("full", 1, 3, 3, 2), ("full", 2, 2, 3, 2)],
@@ -802,6 +836,8 @@ def run(run: Run):
         "to an untracked region handle stay in the session full-ID index (membership not asserted)",
         "trusted base: SessionManager built without HTTPFlowContext / multiprocessing.Event, viewer cache directory scan "
         "stubbed out, events.LOG replaced by a recorder to see exceptions swallowed by Event.notify",
+        "missing_locals is not part of the property statement: its two step postconditions (announced local leaves "
+        "missing_locals; a parent looked for and not found enters it) are observations only (coverage.observations)",
         "object property values other than ids/parent/region/CRC are constants; F0 is only ever announced by ObjectUpdate, "
         "F1 only by ObjectUpdateCompressed",
     ]
@@ -823,6 +859,7 @@ def run(run: Run):
                 v["witness"]["regions"] = nreg
                 v["witness"]["profile"] = profile
                 v["witness"]["locals"] = nl
+    run.coverage_extra["observations"] = _observations()
     run.coverage_extra["bounds"] = [{"profile": _p, "regions": a, "locals": _n, "depth": b, "deviation_bound": c} for _p, a, _n, b, c in bounds]
     for v in run.violations:
         wit = v["witness"]
